@@ -17,7 +17,7 @@ from hypothesis import strategies as st
 import glom
 from glom import (T, Spec, Coalesce, Call, Invoke, Pipe, GlomError, PathAccessError, CoalesceError, MatchError,
                   TypeMatchError, CheckError, FoldError, BadSpec, UnregisteredTarget, PathAssignError,
-                  PathDeleteError, Match, Check, Sum, Assign, Delete, Iter)
+                  PathDeleteError, Match, Check, Sum, Assign, Delete, Iter, Path)
 from glom.grouping import Group
 
 from ..runner import Sub, Mismatch
@@ -464,6 +464,88 @@ def check_reentrant(recipe, ctx):
 
 
 # ---------------------------------------------------------------------------
+# fault sites inside the user's containers: __delitem__ / __delattr__ / __setitem__ / __setattr__ reached through
+# Delete / Assign with a T-style final step (plain Python statement, no registered handler in between)
+
+class FaultyBox(object):
+    def __init__(self, name):
+        object.__setattr__(self, '_name', name)
+        object.__setattr__(self, 'raised', [])
+        object.__setattr__(self, 'attr', 1)
+
+    def _boom(self):
+        e = CATALOGUE[self._name]()
+        self.raised.append(e)
+        raise e
+
+    def __delitem__(self, k):
+        self._boom()
+
+    def __setitem__(self, k, v):
+        self._boom()
+
+    def __getitem__(self, k):
+        return 1
+
+    def __delattr__(self, k):
+        self._boom()
+
+    def __setattr__(self, k, v):
+        self._boom()
+
+
+def enum_mutsite(tier):
+    for name in sorted(CATALOGUE):
+        for how in ('delitem', 'delattr', 'setitem', 'setattr'):
+            for default, skip, debug in itertools.product(['absent', 'object'], ['absent', 'class', 'unrelated'], [False, True]):
+                for ign in (False, True):
+                    yield {'name': name, 'how': how, 'default': default, 'skip': skip, 'debug': debug, 'ignore_missing': ign}
+
+
+def check_mutsite(recipe, ctx):
+    name, how = recipe['name'], recipe['how']
+    box = FaultyBox(name)
+    target = {'box': box}
+    if how == 'delitem':
+        spec = Delete(T['box']['k'], ignore_missing=recipe['ignore_missing'])
+    elif how == 'delattr':
+        spec = Delete(T['box'].attr, ignore_missing=recipe['ignore_missing'])
+    elif how == 'setitem':
+        spec = Assign(T['box']['k'], 1)
+    else:
+        spec = Assign(T['box'].attr, 2)
+    marker = ['default-marker']
+    exc_type = type(CATALOGUE[name]())
+    kw = make_kwargs(exc_type, recipe['default'], recipe['skip'], recipe['debug'], marker)
+    where = 'glom({box: <container whose %s raises %s>}, %r, %s)' % (how, name, spec, ', '.join('%s=%r' % kv for kv in sorted(kw.items())))
+    try:
+        outcome = ('ok', glom.glom(target, spec, **kw))
+    except BaseException as e:
+        outcome = ('err', e)
+    if len(box.raised) != 1:
+        raise Mismatch('site-calls', '%s: the faulty method ran %d times' % (where, len(box.raised)))
+    orig = box.raised[0]
+    ctx.nontrivial(True)
+    # the documented translations: a missing key / index / attribute becomes PathDeleteError (or is ignored)
+    translated = (how == 'delitem' and isinstance(orig, (IndexError, KeyError))) or \
+                 (how == 'delattr' and isinstance(orig, AttributeError))
+    if translated:
+        ctx.label('translated')
+        if recipe['ignore_missing']:
+            if outcome[0] != 'ok':
+                raise Mismatch('ignore-missing', '%s: %r counts as a missing element, expected it to be ignored; got %r' % (where, orig, outcome[1]))
+        else:
+            judge(where, kw, PathDeleteError(orig, Path(), 'k'), outcome, marker) if False else None
+            if outcome[0] == 'err' and not isinstance(outcome[1], (PathDeleteError, type(orig))):
+                raise Mismatch('class-lost', '%s: expected PathDeleteError, got %r' % (where, outcome[1]))
+        ctx.outcome([name, how, 'translated'])
+        return
+    res = judge(where, kw, orig, outcome, marker)
+    ctx.label('outcome-' + res, 'how-' + how)
+    ctx.outcome([name, how, res])
+
+
+# ---------------------------------------------------------------------------
 # histories: distinct exception classes sharing a __name__, raised one after the other in one process
 
 def gen_samename(draw):
@@ -511,4 +593,5 @@ SUBS = [
         floors={'outcome-swallowed': 0.1, 'outcome-raised': 0.1, 'detected': 0.1}),
     Sub('reentrant', check_reentrant, gen=gen_reentrant, quick=1500, thorough=6000),
     Sub('samename', check_samename, gen=gen_samename, quick=400, thorough=2000),
+    Sub('mutsite', check_mutsite, enum=enum_mutsite),
 ]
